@@ -13,7 +13,8 @@ RULE = ("K: (a) fdtdx.TanhProjection.__call__ (and tanh_projection directly) for
         "voxel sizes 20 nm .. 1 um, fields = uniform / ramps / smooth waves / half-flat / nearly flat (gradient 1e-13, 1e-20, 1e-80: d/R overflows when raised to the 4th power) / random (cells with and without an interface, "
         "counted by an independent numpy mask), same beta/eta families; compared with the model at 1e-9 except cells whose "
         "interface distance is within 1e-9 relative of the smoothing radius (branch decision at round-off; counted). "
-        "(b') both classes called with multi-entry dicts whose arrays differ in shape and singleton-axis position in ONE call "
+        "(a3) deterministic probe of tiny-amplitude designs (float32 1e-26..1e-13, binary64 1e-160..1e-146, threshold 0 or the "
+        "amplitude, beta in {inf, 8}, all voxel sizes): gradients finite. (b') both classes called with multi-entry dicts whose arrays differ in shape and singleton-axis position in ONE call "
         "(shape kept, equal to the single-array call, model per entry). Error glue: no singleton axis, unequal voxel sizes, missing beta, axis shorter than 2. "
         "Property oracle on the implementation (independent of the model) for every case: range [0,1] on [0,1], monotone, "
         "fixes 0 and 1 (eta in (0,1)), beta=0 == clip exactly, beta=inf == step away from eta exactly, smoothed == plain in "
@@ -23,6 +24,7 @@ RULE = ("K: (a) fdtdx.TanhProjection.__call__ (and tanh_projection directly) for
 BETAS = [0.0, 1e-290, 1e-8, 1e-3, 0.1, 1.0, 8.0, 64.0, 1e3, 1e6, 1e300, math.inf]
 ETAS = [0.0, 0.05, 0.25, 0.5, 0.75, 1.0]
 C055 = 0.55
+FLOOR64 = float(np.finfo(np.float64).tiny) * 2 ** 20      # norm_floor of smoothed_projection in binary64
 SUBNORMAL_SIG = "beta-below-smallest-normal"
 _J = None
 
@@ -228,7 +230,7 @@ def np_mask(x2, eta, res):
     R = 0.55 * dx
     g0, g1 = np.gradient(x2)
     h = (g0 / dx) ** 2 + (g1 / dx) ** 2
-    nz = np.abs(h) > 0
+    nz = np.abs(h) > FLOOR64
     ne = np.where(nz, np.sqrt(np.where(nz, h, 1)), 1)
     d = (eta - x2) / ne
     return nz & (np.abs(d) < R), np.where(nz, np.abs(d) / R - 1, np.inf)
@@ -393,6 +395,27 @@ def run(ctx):
             ctx.violation({"op": "tanh", "beta": beta, "eta": 0.5, "xs": xs},
                           f"tanh_projection returns {y.tolist()} for beta={beta} (0 < beta < 2.2e-308)", signature=SUBNORMAL_SIG)
 
+    # (a3) designs whose whole variation is tiny (float32: 1e-26..1e-13, binary64: 1e-160..1e-146) with the threshold at
+    # or next to 0: the squared gradient norm sits at the underflow threshold of the dtype. Before the repair
+    # (norm_floor) the backward pass overflowed there (inf/NaN gradients at beta=inf). Deterministic, every run.
+    base = np.array([[1.965977143249371, 6.073738027551667, 4.5056637457985, 0.8548545994479029],
+                     [4.67809022323612, 9.744079365483317, 3.078785994784897, 2.942501723948847],
+                     [1.7393373378864083, 0.4776031980890105, 7.869129054406456, 8.576987448441539],
+                     [0.36636147291449035, 1.6989315448780295, 8.10477936338418, 1.223829527722996]])
+    for dtype, exps in (("float32", [x / 2 for x in range(-52, -25)]), ("float64", list(range(-160, -145)))):
+        for e in exps:
+            for vox in VOXELS:
+                res = 1 / (vox / 1e-6)
+                for beta in (math.inf, 8.0):
+                    for eta in (0.0, 10.0 ** e):
+                        x2 = base * 10.0 ** e
+                        ctx.case(op="tiny-amplitude", dtype=dtype, nontrivial=("tiny", dtype, e, vox, repr(beta), eta == 0))
+                        ctx.impl_property_evals += 1
+                        d = grads_finite_smooth(beta, eta, x2, res, dtype)
+                        if d:
+                            ctx.violation({"op": "smooth", "beta": beta, "eta": eta, "x3": np.expand_dims(x2, 2).tolist(),
+                                           "voxel": [vox, vox, 1e-6]}, d + f" (beta={beta}, eta={eta}, voxel={vox}, amplitude 1e{e})")
+
     # (b) subpixel-smoothed projection
     n_cases = ctx.scale(60, 500)
     nms = [(2, 2), (7, 3)] + [(rng.randint(2, 7), rng.randint(2, 7)) for _ in range(ctx.scale(2, 10))]
@@ -427,7 +450,7 @@ def run(ctx):
                 ok = np.abs(margin) > 1e-9
                 ctx.extra["borderline_cells_skipped"] = ctx.extra.get("borderline_cells_skipped", 0) + int((~ok).sum())
                 ctx.expect_close("smooth", case, np.squeeze(y, v)[ok], mod[ok], tol=1e-9)
-        B.ask(f"smooth {n} {m} {f2h(beta)} {f2h(eta)} {f2h(res)} {f2h(C055)} " + " ".join(f2h(t) for t in x2.ravel()), cb)
+        B.ask(f"smooth {n} {m} {f2h(beta)} {f2h(eta)} {f2h(res)} {f2h(C055)} {f2h(FLOOR64)} " + " ".join(f2h(t) for t in x2.ravel()), cb)
         ctx.impl_property_evals += 1
         d = prop_smooth(beta, eta, x3, voxel, y, grads=(ci % ctx.scale(2, 1) == 0))
         if d:
@@ -468,7 +491,7 @@ def run(ctx):
                 vax = list(v.shape).index(1)
                 x2 = np.squeeze(v, vax)
                 res = 1 / (voxel[0] / 1e-6)
-                line = f"smooth {x2.shape[0]} {x2.shape[1]} {f2h(beta)} {f2h(eta)} {f2h(res)} {f2h(C055)} " + " ".join(f2h(t) for t in x2.ravel())
+                line = f"smooth {x2.shape[0]} {x2.shape[1]} {f2h(beta)} {f2h(eta)} {f2h(res)} {f2h(C055)} {f2h(FLOOR64)} " + " ".join(f2h(t) for t in x2.ravel())
                 ok = (np.abs(np_mask(x2, eta, res)[1]) > 1e-9).ravel()
 
             def cb(rep, case=case, y=out[k].ravel(), ok=ok):
@@ -527,7 +550,7 @@ def run(ctx):
         ctx.case(op="missing-beta")
         ctx.expect_equal("missing-beta", {"cls": cls.__name__}, real, "error")
     ctx.case(op="short-axis")
-    B.ask(f"smooth 1 3 {f2h(1.0)} {f2h(0.5)} {f2h(1.0)} {f2h(C055)} " + " ".join([f2h(0.4)] * 3),
+    B.ask(f"smooth 1 3 {f2h(1.0)} {f2h(0.5)} {f2h(1.0)} {f2h(C055)} {f2h(FLOOR64)} " + " ".join([f2h(0.4)] * 3),
           lambda rep: ctx.expect_equal("short-axis", {}, rep, "error"))
     B.flush()
 
